@@ -1,14 +1,15 @@
 ------------------------------- MODULE Gen_X03 -------------------------------
 (* Scenario enumeration by TLC for X03 (spec -> code):
-     col     every small pile-up column: counts of the reference base, of two alternative
-             bases (a >= b) and of read-N, with what the rule must emit for each option set
+     col     every small pile-up column: counts of the reference base (up to MaxRef, so that
+             ratios on both sides of every --minrel occur with count >= --minabs), of two
+             alternative bases (a >= b) and of read-N, with what the rule must emit for each option set
              (the driver materialises columns as alignments; the trace spec recomputes)
      mendel  every (mother, father, child) triple of diploid genotypes over MaxAllele + 1 alleles *)
 EXTENDS X03Pileup, X03Ped, Json, IOUtils, SequencesExt
-CONSTANTS MaxCount, MaxAllele
+CONSTANTS MaxCount, MaxRef, MaxAllele
 
 Cols == { [k |-> "col", r |-> r, a |-> a, b |-> b, n |-> n] :
-          r \in 0..MaxCount, a \in 0..MaxCount, b \in 0..MaxCount, n \in 0..1 }
+          r \in 0..MaxRef, a \in 0..MaxCount, b \in 0..MaxCount, n \in 0..1 }
 ColsOK == { x \in Cols : x.b <= x.a /\ x.r + x.a + x.b + x.n >= 1 }
 Genos == { <<x, y>> : x \in 0..MaxAllele, y \in 0..MaxAllele }
 Triples == { [k |-> "mendel", m |-> m, f |-> f, c |-> c, conflict |-> ~Compatible(m, f, c)] :
